@@ -31,6 +31,20 @@
 //       reproducible (replays). In phase A the clock advances at every call (two samplings never draw the same points) and
 //       the random configurations are judged by same-object oracles only; in the histories it stands still, so that the
 //       comparison with a fresh object is meaningful (their text says "clock pinned").
+//   Extensions (coverage round 3):
+//     * the OLDER cache switch set_cache_enabled(bool) (flips the flag, leaves the arrays alone) and the parsed keyword
+//       `use cache` (`parse_use_cache b`: parse() of a parameter file with only that keyword) in forced THREE-STEP
+//       histories, per world and seed: compute with the cache on; switch off; change the activity / attenuation image
+//       (new object, in place + same pointer, by file name); [set_up; compute;] switch on; set_up; compute — every
+//       result compared with a fresh object of the same settings AND of the opposite cache setting (bitwise), and with
+//       the Lean state machine (kind `clean2`: the weaker guard of runGuarded2);
+//     * every other public entry point that changes the result is an operation of the histories: setters by FILE NAME
+//       (set_activity_image / set_density_image / set_density_image_for_scatter_points / set_template_proj_data_info(string):
+//       the pool images and some templates are written to Interfile files and the pool entries are what is read back),
+//       set_exam_info_sptr, set_randomly_place_scatter_points in mid-history, the three public ways to provide the output
+//       (set_output_proj_data_sptr(sptr), set_output_proj_data(""), set_output_proj_data_sptr(exam, info, ""));
+//     * oracle-only: an object built by the parsing constructor SingleScatterSimulation(parameter file) gives the result of
+//       the object configured through the setters, also after re-parsing `use cache` and changing an image.
 //
 // Usage: c16_scatter <seed> <quick|thorough> <opsfile> <implfile>
 #include "stir_fixtures.h"
@@ -40,6 +54,11 @@
 #include "stir/ExamInfo.h"
 #include "stir/Bin.h"
 #include "stir/IndexRange3D.h"
+#include "stir/ProjDataInterfile.h"
+#include "stir/IO/write_to_file.h"
+#include "stir/IO/read_from_file.h"
+#include <fstream>
+#include <sys/stat.h>
 #include <algorithm>
 #include <cmath>
 #include <cstring>
@@ -76,6 +95,10 @@ time(time_t* t) noexcept
 // access to the protected interface of the real class (no behaviour added)
 struct Sim : public SingleScatterSimulation
 {
+  Sim() {}
+  explicit Sim(const std::string& parameter_filename)
+      : SingleScatterSimulation(parameter_filename)
+  {}
   using SingleScatterSimulation::actual_scatter_estimate;
   using SingleScatterSimulation::simulate_for_one_scatter_point;
   using SingleScatterSimulation::scatter_estimate;
@@ -91,6 +114,8 @@ struct Sim : public SingleScatterSimulation
   float vol() const { return scatter_volume; }
   bool is_blocks() const { return get_template_proj_data_info_sptr()->get_scanner_ptr()->get_scanner_geometry() == "BlocksOnCylindrical"; }
 };
+
+static string g_scratch; // /tmp/C16/harness-<pid>: Interfile images / projection data / parameter files of the worlds
 
 static const float SENTINEL = -1234567.89E10F; // cache_init_value (cached_single_scatter_integrals.cxx:27)
 
@@ -148,9 +173,20 @@ struct TmplDims
   int base, dets, rings, ntang, nseg;
   int blocks, buckets; // BlocksOnCylindrical? ; number of transaxial buckets
 };
+// a template written to an Interfile projection-data file together with an exam info; pool entries `k_pool` / `e_pool`
+// are what ProjData::read_from_file gives back
+struct FileTmpl
+{
+  int k_pool, e_pool;
+  string file;
+};
 struct World
 {
   int id;
+  string dir;
+  std::vector<FileTmpl> ftmpls;
+  std::vector<string> act_files, att_files, sp_files; // Interfile headers of the pool images (same index)
+  string par_cache[2];                               // parameter files with only `use cache := 0|1`
   std::vector<shared_ptr<ProjDataInfo>> tmpls;
   std::vector<TmplDims> dims;
   std::vector<shared_ptr<ExamInfo>> exams;
@@ -254,14 +290,23 @@ configure(const World& w, const Config& c, shared_ptr<Img> act_override = shared
 
 // attach an in-memory output matching the current template and run process_data()
 // returns false if process_data did not return Succeeded::yes; throws what the library throws
+// out_mode: which public way provides the output: 0 set_output_proj_data_sptr(sptr), 1 set_output_proj_data("") (in memory),
+// 2 set_output_proj_data_sptr(exam, info, "") (in memory)
 static bool
-run_process(Sim& s, std::vector<float>& v)
+run_process(Sim& s, std::vector<float>& v, int out_mode = 0)
 {
   shared_ptr<ProjDataInMemory> out;
   if (s.has_template_proj_data_info() && s.has_exam_info())
     {
-      out.reset(new ProjDataInMemory(s.get_exam_info_sptr(), s.get_template_proj_data_info_sptr()->create_shared_clone()));
-      s.set_output_proj_data_sptr(out);
+      if (out_mode == 1)
+        s.set_output_proj_data(std::string());
+      else if (out_mode == 2)
+        s.set_output_proj_data_sptr(s.get_exam_info_sptr(), s.get_template_proj_data_info_sptr()->create_shared_clone(), std::string());
+      else
+        {
+          out.reset(new ProjDataInMemory(s.get_exam_info_sptr(), s.get_template_proj_data_info_sptr()->create_shared_clone()));
+          s.set_output_proj_data_sptr(out);
+        }
     }
   if (s.process_data() != Succeeded::yes)
     return false;
@@ -343,6 +388,91 @@ make_blocks_scanner(int nb, int cpb, int R, float radius, float fill, float eres
                                     /*axial_block_spacing*/ 4.F * R,
                                     /*transaxial_block_spacing*/ cs * cpb));
   return s;
+}
+
+static string
+fmt9(double x)
+{
+  char b[64];
+  std::snprintf(b, sizeof b, "%.9g", x);
+  return b;
+}
+
+// Interfile copies of the pool: every image is written and the pool entry REPLACED by what read_from_file returns (so
+// that "by file name" and "by object" are the same values exactly); the cylindrical templates 0, 1, 2 and 5 are written as
+// projection data with an exam info and what is read back becomes a NEW pool template / exam info
+// (not the BlocksOnCylindrical ones: the header prints crystal and block spacing with 6 decimals, after which
+//  3 x crystal spacing may exceed the block spacing and Scanner::set_up refuses the scanner it reads — header I/O, not C16)
+static void
+write_world_files(World& w)
+{
+  w.dir = g_scratch + "/w" + num(w.id);
+  ::mkdir(w.dir.c_str(), 0777);
+  auto roundtrip = [&](std::vector<shared_ptr<Img>>& pool, std::vector<string>& files, const string& stem) {
+    for (std::size_t k = 0; k < pool.size(); ++k)
+      {
+        const string f = write_to_file(w.dir + "/" + stem + num(k), *pool[k]);
+        shared_ptr<DiscretisedDensity<3, float>> back(read_from_file<DiscretisedDensity<3, float>>(f));
+        shared_ptr<Img> im = std::dynamic_pointer_cast<Img>(back);
+        bool same = im && im->get_index_range() == pool[k]->get_index_range()
+                    && norm(im->get_voxel_size() - pool[k]->get_voxel_size()) <= 1e-4F * norm(pool[k]->get_voxel_size())
+                    && norm(im->get_origin() - pool[k]->get_origin()) <= 1e-4F;
+        if (same)
+          same = std::equal(im->begin_all_const(), im->end_all_const(), pool[k]->begin_all_const());
+        oracle(same, "world=" + num(w.id) + " image " + stem + num(k) + " does not survive write_to_file / read_from_file — generator problem");
+        if (im)
+          pool[k] = im;
+        files.push_back(f);
+      }
+  };
+  roundtrip(w.acts, w.act_files, "act");
+  roundtrip(w.atts, w.att_files, "att");
+  roundtrip(w.spimgs, w.sp_files, "sp");
+  int nfile = 0;
+  for (int k : { 0, 1, 2, w.auto_tmpl })
+    {
+      // the state machine identifies templates / energy windows by pool index and assumes different indices mean different
+      // values: the file gets a ring radius and an energy window of its own
+      shared_ptr<Scanner> sc(new Scanner(*w.tmpls[k]->get_scanner_ptr()));
+      sc->set_inner_ring_radius(sc->get_inner_ring_radius() + 2.F + nfile);
+      const shared_ptr<ProjDataInfo> src = vh::make_pdi(sc, 1, w.dims[k].rings - 1, w.dims[k].dets / 2, w.dims[k].dets / 2 - 1);
+      const shared_ptr<ExamInfo> src_exam = mk_exam(405.F + 12 * nfile, 630.F - 10 * nfile);
+      ++nfile;
+      const string stem = w.dir + "/tmpl" + num(k);
+      {
+        ProjDataInterfile pd(src_exam, src->create_shared_clone(), stem);
+      }
+      shared_ptr<ProjData> back = ProjData::read_from_file(stem + ".hs");
+      shared_ptr<ProjDataInfo> p = back->get_proj_data_info_sptr()->create_shared_clone();
+      shared_ptr<ExamInfo> ex = back->get_exam_info().create_shared_clone();
+      // (the header prints floats with 6 significant digits: what is read back is a pool entry of its own, only its sizes
+      //  and the presence of the energy information are required)
+      const bool same = p->get_num_tangential_poss() == src->get_num_tangential_poss() && p->get_num_views() == src->get_num_views()
+                        && p->get_num_segments() == src->get_num_segments()
+                        && p->get_scanner_ptr()->get_num_rings() == w.tmpls[k]->get_scanner_ptr()->get_num_rings()
+                        && p->get_scanner_ptr()->get_num_detectors_per_ring() == w.tmpls[k]->get_scanner_ptr()->get_num_detectors_per_ring()
+                        && p->has_energy_information() && ex->has_energy_information()
+                        && std::fabs(ex->get_low_energy_thres() - src_exam->get_low_energy_thres()) < 0.01F
+                        && std::fabs(ex->get_high_energy_thres() - src_exam->get_high_energy_thres()) < 0.01F
+                        && std::fabs(p->get_scanner_ptr()->get_energy_resolution() - w.tmpls[k]->get_scanner_ptr()->get_energy_resolution()) < 1e-4F;
+      oracle(same, "world=" + num(w.id) + " template " + num(k) + " / its energy window does not survive the Interfile projection-data header — generator problem");
+      FileTmpl ft;
+      ft.k_pool = static_cast<int>(w.tmpls.size());
+      ft.e_pool = static_cast<int>(w.exams.size());
+      ft.file = stem + ".hs";
+      TmplDims d = w.dims[k];
+      d.base = ft.k_pool;
+      w.tmpls.push_back(p);
+      w.dims.push_back(d);
+      w.exams.push_back(ex);
+      w.ftmpls.push_back(ft);
+    }
+  for (int b = 0; b < 2; ++b)
+    {
+      w.par_cache[b] = w.dir + "/use_cache" + num(b) + ".par";
+      std::ofstream f(w.par_cache[b].c_str());
+      f << "PET Single Scatter Simulation Parameters :=\n use cache := " << b << "\nend PET Single Scatter Simulation Parameters :=\n";
+    }
 }
 
 static World
@@ -430,9 +560,10 @@ make_world(int id, vh::Rng& rng, bool thorough)
     w.dims.push_back(d);
   }
   // energy windows: different low thresholds (max scatter angle) and different efficiencies at 511 keV
+  // (1 shares the upper threshold with 0, 2 the lower one: a setter that compares only part of the window is visible)
   w.exams.push_back(mk_exam(400.F, 650.F));
-  w.exams.push_back(mk_exam(450.F, 540.F));
-  w.exams.push_back(mk_exam(350.F + 5 * rng.range(0, 4), 575.F));
+  w.exams.push_back(mk_exam(450.F, 650.F));
+  w.exams.push_back(mk_exam(400.F, 555.F + 5 * rng.range(0, 4)));
   // activity / attenuation grid
   w.anz = 3;
   w.anxy = rng.coin() ? 5 : 7;
@@ -562,6 +693,7 @@ make_world(int id, vh::Rng& rng, bool thorough)
         }
     }
   w.spimgs.push_back(make_sp(nh + 1, nl + 2));
+  write_world_files(w);
   return w;
 }
 
@@ -976,6 +1108,8 @@ struct Hist
   std::vector<string> trace;
   // images owned by the "user" of the history object: overwritten in place and handed over again (same pointer)
   shared_ptr<Img> mut_act, mut_att, mut_sp;
+  int out_mode = 0;           // which public way provides the output (see run_process)
+  bool check_flipped = false; // every result must also equal that of a fresh object with the OPPOSITE cache setting
 };
 
 static void
@@ -992,6 +1126,7 @@ hist_new(Hist& h, const World& w, bool rnd)
   h.dead = false;
   h.trace.clear();
   emit("new", "ok");
+  emit(string("set_rnd ") + (rnd ? "1" : "0"), "ok");
 }
 
 // executes one operation on the real object; returns the answer token(s)
@@ -1088,6 +1223,62 @@ hist_apply(Hist& h, const std::vector<string>& t)
           h.cfg.exam = I(1);
           return "ok";
         }
+      if (op == "set_exam_sptr")
+        {
+          s.set_exam_info_sptr(w.exams[I(1)]);
+          h.cfg.exam = I(1);
+          return "ok";
+        }
+      // by file name: the pool entries k / e are what the file contains
+      if (op == "set_tmpl_file")
+        {
+          const FileTmpl* ft = nullptr;
+          for (const FileTmpl& f : w.ftmpls)
+            if (f.k_pool == I(1) && f.e_pool == I(2))
+              ft = &f;
+          if (!ft)
+            return "bad-op";
+          s.set_template_proj_data_info(ft->file);
+          h.cfg.tmpl = ft->k_pool;
+          h.cfg.exam = ft->e_pool;
+          h.cfg.ds_calls.clear();
+          return "ok";
+        }
+      if (op == "set_act_file")
+        {
+          s.set_activity_image(w.act_files[I(1)]);
+          h.cfg.act = I(1);
+          return "ok";
+        }
+      if (op == "set_att_file")
+        {
+          s.set_density_image(w.att_files[I(1)]);
+          h.cfg.att = I(1);
+          h.cfg.sp = -1;
+          return "ok";
+        }
+      if (op == "set_spimg_file")
+        {
+          s.set_density_image_for_scatter_points(w.sp_files[I(1)]);
+          h.cfg.sp = I(1);
+          return "ok";
+        }
+      if (op == "set_rnd")
+        {
+          s.set_randomly_place_scatter_points(I(1) != 0);
+          h.cfg.rnd = I(1) != 0;
+          return "ok";
+        }
+      // the parsed keyword: parse() of a parameter file that only has `use cache := b` (the parser writes the member; the
+      // file-name members of this object are empty — the generator never mixes this with the setters by file name — so
+      // post_processing() does nothing)
+      if (op == "parse_use_cache")
+        {
+          if (!s.parse(w.par_cache[I(1) != 0 ? 1 : 0].c_str()))
+            return "err";
+          h.cfg.use_cache = I(1) != 0;
+          return "ok";
+        }
       if (op == "set_zoom")
         {
           const Zoom& z = w.zooms[I(1)];
@@ -1151,7 +1342,7 @@ process_verdict(Hist& h, bool in_child)
   std::vector<float> v, f;
   try
     {
-      if (!run_process(*h.sim, v))
+      if (!run_process(*h.sim, v, h.out_mode))
         return "err";
     }
   catch (...)
@@ -1164,6 +1355,17 @@ process_verdict(Hist& h, bool in_child)
     return "ok nofresh";
   if (!bitwise_equal(v, f))
     return "ok stale";
+  if (h.check_flipped)
+    {
+      // "the same with the line-integral cache enabled or disabled": a fresh object with the opposite setting
+      Config c2 = h.cfg;
+      c2.use_cache = !c2.use_cache;
+      std::vector<float> f2;
+      if (!fresh_result(*h.w, c2, f2))
+        return "ok nofresh";
+      if (!bitwise_equal(v, f2))
+        return "ok stale";
+    }
   // an all-zero estimate (zero activity, or nothing within the energy window) cannot show staleness:
   // reported separately so that the comparison with the model accepts either prediction
   for (float x : v)
@@ -1215,13 +1417,20 @@ hist_process(Hist& h)
 }
 
 // run one history; `key` empty: any stale/crash/nofresh result is an ORACLE-FAIL; otherwise KNOWN-CANDIDATE key
+// kind: `clean` (guard opOk, oracle strict), `clean2` (weaker guard of runGuarded2, oracle strict), `dirty`
 static void
-run_history(const World& w, const std::vector<string>& lines, const string& kind, const string& key, const string& what, bool rnd = false)
+run_history(const World& w, const std::vector<string>& lines, const string& kind, const string& key, const string& what, bool rnd = false,
+            int out_mode = 0, bool check_flipped = false)
 {
-  emit("cfg hist " + kind + " world=" + num(w.id) + (key.empty() ? "" : " " + key) + (rnd ? " random-placement" : ""), "ok");
+  emit("cfg hist " + kind + " world=" + num(w.id) + (key.empty() ? "" : " " + key) + (rnd ? " random-placement" : "")
+           + (out_mode ? " out-mode=" + num(out_mode) : "") + (check_flipped ? " cache-flipped-oracle" : ""),
+       "ok");
   Hist h;
   hist_new(h, w, rnd);
-  string trace = "new";
+  h.out_mode = out_mode;
+  h.check_flipped = check_flipped;
+  const bool strict = kind == "clean" || kind == "clean2";
+  string trace = string("new; set_rnd ") + (rnd ? "1" : "0");
   bool set_up_succeeded_last = false; // set_up() returned Succeeded::yes and nothing was set since
   for (const string& line : lines)
     {
@@ -1238,9 +1447,9 @@ run_history(const World& w, const std::vector<string>& lines, const string& kind
           ans = hist_process(h);
           const bool bad = ans == "ok stale" || ans == "crash" || ans == "ok nofresh" || ans == "nondeterministic"
                            || (ans == "err" && set_up_succeeded_last);
-          if (kind == "clean" || key.empty())
+          if (strict || key.empty())
             {
-              if (kind == "clean")
+              if (strict)
                 oracle(!bad, "world=" + num(w.id) + (rnd ? " (random placement, clock pinned)" : "") + " history [" + trace + "]: process_data gives `" + ans
                                  + "` instead of the result of a freshly configured simulation");
               else
@@ -1498,6 +1707,181 @@ targeted_histories(const World& w)
   }
 }
 
+// ------------------------------------------------------------------------------------------------ round 3: forced histories
+// THE OLDER SWITCH set_cache_enabled(bool) (and the parsed keyword `use cache`): flips `use_cache` without clearing or
+// allocating the arrays. Three steps: (1) compute with the cache on; (2) switch off, change an input image (the arrays
+// survive the switch; the setter has to remove its array although the cache is off), [set_up, compute without cache];
+// (3) switch on, set_up (keeps arrays of the right size), compute: must be the result for the NEW image.
+// Every result: == fresh object with the same settings, == fresh object with the opposite cache setting, == Lean model.
+static void
+three_step_histories(const World& w, vh::Rng& rng)
+{
+  struct C
+  {
+    const char* what;
+    int sp;  // scatter-point image of the base configuration (-1: derived from the attenuation image)
+    bool ip; // base configuration through the owner's objects (so that an in-place change is possible)
+    std::vector<const char*> change;
+  };
+  const std::vector<C> changes = {
+    // activity image
+    { "activity: new object", 0, false, { "set_act 1" } },
+    { "activity: in place + same pointer", 0, true, { "set_act_ip 1" } },
+    { "activity: by file name", 0, false, { "set_act_file 2" } },
+    // attenuation image; the scatter points keep their number (image 2 mirrors image 0 / the same scatter-point image again),
+    // so the arrays keep their size
+    { "attenuation: new object, derived scatter points", -1, false, { "set_att 2" } },
+    { "attenuation: in place + same pointer, derived scatter points", -1, true, { "set_att_ip 2" } },
+    { "attenuation: by file name, derived scatter points", -1, false, { "set_att_file 2" } },
+    { "attenuation: new object, the same scatter-point image again", 0, false, { "set_att 1", "set_spimg 0" } },
+    { "attenuation: in place, the same scatter-point image again in place", 0, true, { "set_att_ip 1", "set_spimg_ip 0" } },
+    // both
+    { "activity and attenuation", -1, true, { "set_act_ip 3", "set_att_ip 2" } },
+  };
+  int n = 0;
+  for (const C& c : changes)
+    for (int mid = 0; mid < 2; ++mid, ++n)
+      {
+        // the switch: the setter, or the parsed keyword (not together with a setter by file name: a later parse() would read
+        // the files again)
+        bool files = false;
+        for (const char* x : c.change)
+          if (std::strstr(x, "_file"))
+            files = true;
+        const bool kw = !files && (n + w.id) % 3 == 0;
+        const string off = kw ? "parse_use_cache 0" : "set_cache_enabled 0";
+        const string on = kw ? "parse_use_cache 1" : "set_cache_enabled 1";
+        const int tmpl = (n % 4 == 3) ? 3 : (n % 4 == 1 ? 1 : 0); // cylindrical / BlocksOnCylindrical
+        std::vector<string> l = base_config(0, 0, c.sp, tmpl, rng.range(0, 2), 0, 0, c.ip);
+        append(l, { "set_up", "nsp", "process" });
+        l.push_back(off);
+        for (const char* x : c.change)
+          l.push_back(x);
+        if (mid)
+          append(l, { "set_up", "nsp", "process" }); // (2'): the uncached result has to be right, too
+        l.push_back(on);
+        append(l, { "set_up", "nsp", "process", "process" });
+        // once more, the other way round: switch off, first image again, switch on
+        const bool reverse = (n / 2) % 2 == 0;
+        if (reverse)
+          {
+            l.push_back(off);
+            const bool is_act = std::strncmp(c.change[0], "set_act", 7) == 0;
+            l.push_back(c.ip ? (is_act ? "set_act_ip 0" : "set_att_ip 0") : (is_act ? "set_act 0" : "set_att 0"));
+            if (!is_act && c.sp >= 0)
+              l.push_back(c.ip ? "set_spimg_ip 0" : "set_spimg 0");
+            append(l, { "set_up", "process" });
+            l.push_back(on);
+            append(l, { "set_up", "process" });
+          }
+        // (without a set_up while the cache is off the history also satisfies the stronger guard `opOk`)
+        run_history(w, l, mid || reverse ? "clean2" : "clean", "", "", /*rnd*/ n % 5 == 4, /*out_mode*/ n % 3, /*check_flipped*/ true);
+      }
+  // the switch while NOTHING changes: off, compute, on, set_up, compute (the arrays survive and are still right)
+  {
+    std::vector<string> l = base_config(1, 1, 1, 0, 1, 0, 0);
+    append(l, { "set_up", "process", "set_cache_enabled 0", "process", "set_cache_enabled 1", "set_up", "process", "parse_use_cache 0", "set_up", "process",
+                "parse_use_cache 1", "set_up", "process" });
+    run_history(w, l, "clean2", "", "", false, 1, true);
+  }
+  // template of the same sizes / scatter-point image with the same number of points while the cache is off
+  {
+    std::vector<string> l = base_config(0, 0, 0, 0, 0, 0, 0);
+    append(l, { "set_up", "process", "set_cache_enabled 0", "set_tmpl 1", "set_up", "process", "set_cache_enabled 1", "set_up", "process",
+                "set_cache_enabled 0", "set_spimg 1", "set_up", "process", "set_cache_enabled 1", "set_up", "process" });
+    run_history(w, l, "clean2", "", "", false, 2, true);
+  }
+  // set_use_cache for comparison (clears the arrays before it changes the flag)
+  {
+    std::vector<string> l = base_config(0, 0, -1, 0, 0, 0, 0);
+    append(l, { "set_up", "process", "set_use_cache 0", "set_act 1", "set_att 2", "set_up", "process", "set_use_cache 1", "set_up", "process" });
+    run_history(w, l, "clean2", "", "", false, 0, true);
+  }
+}
+
+// the other public entry points that change the result: by file name, set_exam_info_sptr, set_randomly_place_scatter_points
+static void
+entry_point_histories(const World& w, vh::Rng& rng)
+{
+  const FileTmpl& f0 = w.ftmpls[0];
+  const FileTmpl& f1 = w.ftmpls[1];
+  const FileTmpl& f2 = w.ftmpls[2];
+  const FileTmpl& f3 = w.ftmpls[3];
+  auto tf = [](const FileTmpl& f) { return "set_tmpl_file " + num(f.k_pool) + " " + num(f.e_pool); };
+  // everything by file name, then changes by file name after a computation
+  {
+    std::vector<string> l;
+    append(l, { "set_thr 0" });
+    l.push_back(tf(f0));
+    append(l, { "tmplinfo", "set_act_file 0", "set_att_file 0", "set_zoom 0", "set_spimg_file 0", "nsp", "set_up", "process", "set_act_file 1", "set_up",
+                "process", "set_att_file 1", "set_up", "nsp", "process", "set_spimg_file 1", "nsp", "set_up", "process" });
+    l.push_back(tf(f1)); // same sizes, other radius / energy resolution AND other energy window (exam info of the file)
+    append(l, { "tmplinfo", "set_up", "process" });
+    l.push_back(tf(f2)); // other sizes
+    append(l, { "tmplinfo", "set_up", "process", "set_act 2", "set_up", "process" });
+    l.push_back(tf(f3)); // 2-3 rings, coarse default bin size
+    append(l, { "tmplinfo", "set_up", "process", "set_att_file 2", "set_up", "process" });
+    run_history(w, l, "clean", "", "", false, 1, true);
+  }
+  // by file name after by object and back; the file's exam info replaces the one set before (and the efficiency cached
+  // for it: set_template_proj_data_info(filename) calls set_exam_info BEFORE the template setter resets it)
+  {
+    std::vector<string> l = base_config(0, 0, 0, 0, 1, 0, 0);
+    append(l, { "set_up", "process" });
+    l.push_back(tf(f1));
+    append(l, { "set_up", "process", "set_tmpl 0", "set_exam_sptr 2", "set_up", "process" });
+    l.push_back(tf(f0));
+    append(l, { "set_up", "process", "set_act_file 3", "set_spimg_file 0", "set_up", "process", "set_act_ip 1", "set_up", "process" });
+    run_history(w, l, "clean", "", "", false, 2, false);
+  }
+  // set_exam_info_sptr where the clean histories use set_exam_info (right after the template)
+  {
+    std::vector<string> l;
+    append(l, { "set_thr 0", "set_tmpl 0", "set_exam_sptr 0", "set_act 0", "set_att 0", "set_zoom 0", "set_spimg 0", "set_up", "process", "set_tmpl 1",
+                "set_exam_sptr 1", "set_up", "process", "set_tmpl 3", "set_exam_sptr 2", "set_up", "process" });
+    run_history(w, l, "clean", "", "", false, 0, false);
+  }
+  // … and where set_exam_info is known to leave detector_efficiency_no_scatter alone: the same class of input
+  {
+    std::vector<string> l = base_config(0, 0, 0, 0, 0, 0, 0);
+    append(l, { "set_up", "process", "set_exam_sptr 1", "set_up", "process" });
+    run_history(w, l, "dirty", "scatter-cache:exam-info-setter-keeps-detection-efficiency-no-scatter",
+                "set_exam_info_sptr (like set_exam_info) after a computation does not reset detector_efficiency_no_scatter: "
+                "the next estimate is normalised with the 511 keV efficiency of the OLD energy window");
+  }
+  // set_randomly_place_scatter_points in mid-history, where the scatter points are sampled afterwards (clock pinned)
+  for (int first = 0; first < 2; ++first)
+    {
+      std::vector<string> l = base_config(0, 0, -1, first ? 3 : 0, 0, 0, 0);
+      append(l, { "set_up", "nsp", "process", "set_att 1" });
+      l.push_back(first ? "set_rnd 0" : "set_rnd 1");
+      append(l, { "set_up", "nsp", "process", "set_act 1", "set_up", "process", "set_att_ip 2" });
+      l.push_back(first ? "set_rnd 1" : "set_rnd 0");
+      append(l, { "set_spimg 1", "set_up", "process" });
+      run_history(w, l, "clean", "", "", first != 0, rng.range(0, 2), false);
+    }
+  // the value it already has, on an object with a user-supplied scatter-point image: nothing may change
+  for (int v = 0; v < 2; ++v)
+    {
+      std::vector<string> l = base_config(0, 0, 1, v ? 3 : 0, 0, 0, 0);
+      append(l, { "set_up", "nsp", "process" });
+      l.push_back(v ? "set_rnd 1" : "set_rnd 0");
+      append(l, { "nsp", "set_up", "nsp", "process", "set_act 1" });
+      l.push_back(v ? "set_rnd 1" : "set_rnd 0");
+      append(l, { "set_up", "process" });
+      run_history(w, l, "clean", "", "", v != 0, 0, false);
+    }
+  // … and after they were sampled (a sampling parameter like threshold / zoom, outside the property's list of changes): recorded
+  for (int first = 0; first < 2; ++first)
+    {
+      std::vector<string> l = base_config(0, 0, 0, 0, 0, 0, 0);
+      append(l, { "set_up", "process" });
+      l.push_back(first ? "set_rnd 0" : "set_rnd 1");
+      append(l, { "process", "set_up", "process" });
+      run_history(w, l, "dirty", "", "", first != 0);
+    }
+}
+
 // random histories within the guard of the Lean theorem (`opOk`): the generator only emits
 //   set_exam right after set_tmpl / ds_scanner, set_thr / set_zoom right after set_att, cache enabling right after a
 //   setter that resets _already_set_up; never the downsample-scanner flag.
@@ -1542,9 +1926,23 @@ random_clean_history(const World& w, vh::Rng& rng, int length, bool rnd)
   std::vector<string> l;
   TmplTrack tt;
   const int ntm = static_cast<int>(w.tmpls.size());
-  auto act_op = [&](int k) { return string(rng.range(0, 2) == 0 ? "set_act_ip " : "set_act ") + num(k); };
-  auto att_op = [&](int k) { return string(rng.range(0, 2) == 0 ? "set_att_ip " : "set_att ") + num(k); };
-  auto sp_op = [&](int k) { return string(rng.range(0, 2) == 0 ? "set_spimg_ip " : "set_spimg ") + num(k); };
+  // a history either uses the setters by file name or the parsed keyword (a parse() after a setter by file name reads the
+  // files again: not what `parse_use_cache` stands for)
+  const bool files = rng.coin();
+  bool cur_rnd = rnd;
+  auto flavour = [&](const char* base, int k) {
+    const int r = rng.range(0, files ? 4 : 2);
+    // set_act_ip 4 etc.: the owner's object may not exist yet / have another size (zbad): hist_apply copies then
+    return string(base) + (r == 0 ? "_ip " : r >= 3 ? "_file " : " ") + num(k);
+  };
+  auto act_op = [&](int k) { return flavour("set_act", k); };
+  auto att_op = [&](int k) { return flavour("set_att", k); };
+  auto sp_op = [&](int k) { return flavour("set_spimg", k); };
+  auto exam_op = [&](int k) { return string(rng.coin() ? "set_exam " : "set_exam_sptr ") + num(k); };
+  auto cache_op = [&](int b) {
+    const int r = rng.range(0, files ? 1 : 2);
+    return string(r == 0 ? "set_use_cache " : r == 1 ? "set_cache_enabled " : "parse_use_cache ") + num(b);
+  };
   l.push_back("set_zoom " + num(rng.range(0, 1)));
   // most histories start from a complete configuration
   if (rng.range(0, 9) < 8)
@@ -1555,13 +1953,48 @@ random_clean_history(const World& w, vh::Rng& rng, int length, bool rnd)
         l.push_back(x);
       tt.set(w, tk);
       if (rng.coin())
-        l.insert(l.begin(), rng.coin() ? "set_use_cache 0" : "set_cache_enabled 0");
+        l.insert(l.begin(), cache_op(0));
       append(l, { "set_up", "process" });
     }
   for (int k = 0; k < length; ++k)
     {
-      const int r = rng.range(0, 99);
-      if (r < 14)
+      const int r = rng.range(0, 109);
+      if (r >= 100)
+        {
+          // round 3: the cache switches around a change, `set_up` right after enabling (weaker guard); by file name; random placement
+          if (r < 103)
+            {
+              l.push_back(cache_op(1));
+              l.push_back("set_up");
+            }
+          else if (r < 105)
+            {
+              l.push_back(cache_op(0));
+              l.push_back(rng.coin() ? act_op(rng.range(0, 3)) : att_op(rng.range(0, 2)));
+              if (rng.coin())
+                append(l, { "set_up", "process" });
+              l.push_back(cache_op(1));
+              append(l, { "set_up", "process" });
+            }
+          else if (r < 107)
+            {
+              if (files)
+                {
+                  const FileTmpl& f = w.ftmpls[rng.range(0, static_cast<int>(w.ftmpls.size()) - 1)];
+                  l.push_back("set_tmpl_file " + num(f.k_pool) + " " + num(f.e_pool));
+                  tt.set(w, f.k_pool);
+                }
+            }
+          else if (r < 109)
+            {
+              l.push_back(att_op(rng.range(0, 2)));
+              cur_rnd = rng.coin();
+              l.push_back("set_rnd " + num(cur_rnd ? 1 : 0));
+            }
+          else
+            l.push_back("set_rnd " + num(cur_rnd ? 1 : 0)); // the value it has: nothing may change
+        }
+      else if (r < 14)
         l.push_back(act_op(rng.range(0, 4)));
       else if (r < 24)
         l.push_back(att_op(rng.range(0, 2)));
@@ -1578,7 +2011,7 @@ random_clean_history(const World& w, vh::Rng& rng, int length, bool rnd)
           const int tk = rng.range(0, ntm - 1);
           l.push_back("set_tmpl " + num(tk));
           tt.set(w, tk);
-          l.push_back("set_exam " + num(rng.range(0, 2)));
+          l.push_back(exam_op(rng.range(0, 2)));
         }
       else if (r < 54)
         {
@@ -1587,7 +2020,7 @@ random_clean_history(const World& w, vh::Rng& rng, int length, bool rnd)
             {
               l.push_back("ds_scanner " + num(nr) + " " + num(nd));
               if (rng.coin())
-                l.push_back("set_exam " + num(rng.range(0, 2)));
+                l.push_back(exam_op(rng.range(0, 2)));
             }
         }
       else if (r < 58)
@@ -1605,10 +2038,10 @@ random_clean_history(const World& w, vh::Rng& rng, int length, bool rnd)
       else if (r < 66)
         {
           l.push_back(act_op(rng.range(0, 3)));
-          l.push_back(string(rng.coin() ? "set_use_cache " : "set_cache_enabled ") + num(rng.range(0, 1)));
+          l.push_back(cache_op(rng.range(0, 1)));
         }
       else if (r < 69)
-        l.push_back(string(rng.coin() ? "set_use_cache 0" : "set_cache_enabled 0"));
+        l.push_back(cache_op(0));
       else if (r < 71)
         l.push_back("set_act 5"); // inconsistent z-middle: set_up must refuse
       else if (r < 73)
@@ -1630,7 +2063,7 @@ random_clean_history(const World& w, vh::Rng& rng, int length, bool rnd)
         }
     }
   append(l, { "set_up", "process" });
-  run_history(w, l, "clean", "", "", rnd);
+  run_history(w, l, "clean2", "", "", rnd, rng.range(0, 2), rng.range(0, 3) == 0);
 }
 
 // random histories over everything (including the operations the guard excludes): only the correspondence with
@@ -1642,10 +2075,27 @@ random_dirty_history(const World& w, vh::Rng& rng, int length)
   std::vector<string> l = base_config(rng.range(0, 1), rng.range(0, 1), rng.coin() ? rng.range(0, 2) : -1, rng.range(0, ntm - 1), rng.range(0, 2),
                                       rng.range(0, 1), rng.range(0, 1), rng.range(0, 3) == 0);
   append(l, { "set_up", "process" });
+  const bool files = rng.coin();
   for (int k = 0; k < length; ++k)
     {
-      const int r = rng.range(0, 99);
-      if (r < 10)
+      const int r = rng.range(0, 107);
+      if (r >= 100)
+        {
+          if (r < 102)
+            l.push_back("set_rnd " + num(rng.range(0, 1)));
+          else if (r < 104)
+            l.push_back("set_exam_sptr " + num(rng.range(0, 2)));
+          else if (!files)
+            l.push_back("parse_use_cache " + num(rng.range(0, 1)));
+          else if (r < 106)
+            {
+              const FileTmpl& f = w.ftmpls[rng.range(0, static_cast<int>(w.ftmpls.size()) - 1)];
+              l.push_back("set_tmpl_file " + num(f.k_pool) + " " + num(f.e_pool));
+            }
+          else
+            l.push_back(string(rng.coin() ? "set_act_file " : "set_att_file ") + num(rng.range(0, 1)));
+        }
+      else if (r < 10)
         l.push_back(string(rng.coin() ? "set_act_ip " : "set_act ") + num(rng.range(0, 1)));
       else if (r < 18)
         l.push_back(string(rng.coin() ? "set_att_ip " : "set_att ") + num(rng.range(0, 2)));
@@ -1810,6 +2260,106 @@ oracle_only_histories(const World& w)
   }
 }
 
+// the parsing constructor SingleScatterSimulation(parameter file): every keyword, then post_processing() calls the setters by
+// file name. Oracle: the object gives the result of an object configured through the setters; also after parse() of
+// `use cache` (which, on THIS object, reads all files again), a setter, and parse() again.
+static void
+parsed_object_oracle(const World& w, vh::Rng& rng)
+{
+  emit("cfg oracle-only parsed-constructor world=" + num(w.id), "ok");
+  const string ctx = "world=" + num(w.id) + " parsing constructor: ";
+  for (int variant = 0; variant < 2; ++variant)
+    {
+      const FileTmpl& ft = w.ftmpls[variant == 0 ? rng.range(0, 2) : 3];
+      Config c;
+      c.act = rng.range(0, 1);
+      c.att = rng.range(0, 2);
+      c.sp = variant == 0 ? rng.range(0, 2) : -1;
+      c.tmpl = ft.k_pool;
+      c.exam = ft.e_pool;
+      c.thr = rng.range(0, 1);
+      c.zoom = rng.range(0, 1);
+      c.use_cache = rng.coin();
+      c.rnd = false;
+      const Zoom& z = w.zooms[c.zoom];
+      const string par = w.dir + "/sim" + num(variant) + ".par";
+      {
+        std::ofstream f(par.c_str());
+        f << "PET Single Scatter Simulation Parameters :=\n"
+          << " template projdata filename := " << ft.file << "\n"
+          << " attenuation image filename := " << w.att_files[c.att] << "\n"
+          << " activity image filename := " << w.act_files[c.act] << "\n";
+        if (c.sp >= 0)
+          f << " attenuation image for scatter points filename := " << w.sp_files[c.sp] << "\n";
+        f << " zoom XY for attenuation image for scatter points := " << fmt9(z.zxy) << "\n"
+          << " zoom Z for attenuation image for scatter points := " << fmt9(z.zz) << "\n"
+          << " XY size of downsampled image for scatter points := " << z.sxy << "\n"
+          << " Z size of downsampled image for scatter points := " << z.sz << "\n"
+          << " attenuation threshold := " << fmt9(w.thrs[c.thr]) << "\n"
+          << " randomly place scatter points := 0\n"
+          << " use cache := " << (c.use_cache ? 1 : 0) << "\n"
+          << "end PET Single Scatter Simulation Parameters :=\n";
+      }
+      std::unique_ptr<Sim> o;
+      try
+        {
+          o.reset(new Sim(par));
+        }
+      catch (...)
+        {
+        }
+      oracle(static_cast<bool>(o), ctx + "constructor throws on a complete parameter file (variant " + num(variant) + ")");
+      if (!o)
+        continue;
+      oracle(o->get_use_cache() == c.use_cache, ctx + "`use cache` keyword not taken over");
+      string su = try_set_up(*o), v = compare_with_fresh(*o, w, c);
+      oracle(su == "ok" && v == "ok fresh", ctx + "[parse; set_up; process] gives `" + su + " / " + v + "` instead of the result of the object configured through the setters");
+      oracle(o->get_num_scatter_points() > 0, ctx + "no scatter points — generator problem");
+      // flip the keyword by parse(): the flag changes and every file is read again
+      for (int step = 0; step < 2; ++step)
+        {
+          c.use_cache = !c.use_cache;
+          bool parsed = false;
+          try
+            {
+              parsed = o->parse(w.par_cache[c.use_cache ? 1 : 0].c_str());
+            }
+          catch (...)
+            {
+            }
+          c.act = (c.act + 1) % 4;
+          bool set = false;
+          try
+            {
+              if (step == 0)
+                o->set_activity_image(w.act_files[c.act]);
+              else
+                o->set_activity_image_sptr(w.acts[c.act]);
+              set = true;
+            }
+          catch (...)
+            {
+            }
+          su = try_set_up(*o), v = compare_with_fresh(*o, w, c);
+          // (a sparse activity image may see no scatter at all in a tiny scanner)
+          oracle(parsed && set && su == "ok" && (v == "ok fresh" || (c.act >= 2 && v == "ok zero")),
+                 ctx + "[...; parse(use cache := " + num(c.use_cache) + "); set activity image; set_up; process] gives `" + su + " / " + v
+                     + "` instead of the fresh result");
+        }
+    }
+}
+
+static void
+remove_tree(const string& dir)
+{
+  if (dir.size() > 10 && dir.compare(0, 9, "/tmp/C16/") == 0)
+    {
+      const string cmd = "rm -rf '" + dir + "'";
+      int ignored = std::system(cmd.c_str());
+      (void)ignored;
+    }
+}
+
 int
 main(int argc, char** argv)
 {
@@ -1824,13 +2374,16 @@ main(int argc, char** argv)
   g_orc = std::fopen((string(argv[4]) + ".oracle").c_str(), "w");
   if (!g_ops || !g_out || !g_orc)
     return 2;
+  ::mkdir("/tmp/C16", 0777);
+  g_scratch = "/tmp/C16/harness-" + num(static_cast<long>(getpid()));
+  ::mkdir(g_scratch.c_str(), 0777);
   const int n_worlds = thorough ? 30 : 4;
   const int n_clean = thorough ? 100 : 24;
   const int n_dirty = thorough ? 40 : 8;
   const int len = thorough ? 30 : 18;
   for (int wi = 0; wi < n_worlds; ++wi)
     {
-      const World w = make_world(wi, rng, thorough);
+      World w = make_world(wi, rng, thorough);
       declare_world(w);
       // phase A on several configurations
       {
@@ -1901,12 +2454,17 @@ main(int argc, char** argv)
         phase_a(w, r2, rng, ne, "R2");
       }
       targeted_histories(w);
+      three_step_histories(w, rng);
+      entry_point_histories(w, rng);
       oracle_only_histories(w);
+      parsed_object_oracle(w, rng);
       for (int k = 0; k < n_clean; ++k)
         random_clean_history(w, rng, len, k % 5 == 4);
       for (int k = 0; k < n_dirty; ++k)
         random_dirty_history(w, rng, len);
+      remove_tree(w.dir);
     }
+  remove_tree(g_scratch);
   std::fprintf(g_orc, "ORACLE-DONE checks=%ld fails=%ld\n", g_checks, g_fails);
   std::fclose(g_ops);
   std::fclose(g_out);
